@@ -37,6 +37,8 @@ PREFIX = [
     ["arrange", [["desc", src("k")]]],
     ["mutate", [["y", ["mul", src("k"), lit(2)]]]],
     ["summarize", [["m", ["max", src("x")]]]],  # drops columns: their references must stay dead after re-rooting
+    # window columns: the re-rooted table must remember that they are not element-wise
+    ["mutate", [["w", ["sum", src("x")]], ["sh", ["shift", src("x"), 1, None, {"arrange": [src("k")]}]]]],
 ]
 REROOT = [
     ["alias"],
@@ -97,6 +99,15 @@ def probes(ex, hist, mstates):
     cur = len(hist) - 1
     for n in st.names():
         out.append(["mutate", [["probe", ["col", "at", cur, n]]]])
+    # the re-rooted table joined with an alias of the very table OBJECT it was made from (both operands
+    # share every verb node below the re-rooting, e.g. a Mutate), on the first visible column
+    if is_reroot(hist[-1]) and i_re >= 2 and not st.group:
+        pre = mstates[i_re - 1]
+        if not isinstance(pre, M.Reject) and not pre.group and pre.names():
+            n0 = pre.names()[0]
+            if n0 in st.names():
+                for how in ("inner", "left"):
+                    out.append(["join", {"at": i_re - 1, "alias": True}, how, [["eq", ["col", "at", cur, n0], ["col", "right", n0]]], {"suffix": "_s"}])
     # self-join with the origin (the same prefix replayed on the source) on every visible column
     if is_reroot(hist[-1]) and not st.group:
         prefix = [e for e in hist[1:i_re] if e[0] not in ("group_by",)]
